@@ -209,7 +209,12 @@ def run_case(case, ctx):
         ref[i] = np.asarray(r.value).reshape(3)
     mag = np.max(np.abs(ref), axis=1, keepdims=True)
     fs = np.array([[build.field_scale(s) * (1.0 if field in "BJ" else 1.0 / magpy.mu_0)] for s in insts])
-    sc = np.maximum(mag, fs * 1e-6) * np.ones((1, 3))
+    # comparison scale per instance: the field magnitude there, but not less than 1e-3 of the natural magnitude of the
+    # source's field at that distance (a value that is a small difference of large terms carries their absolute error)
+    nat = np.array([[build.natural_scale(insts[i], geom.body_from_spec(insts[i]),
+                                         float(geom.body_from_spec(insts[i]).dist(build.to_local(insts[i], obs[i])[None])[0]) / geom.body_from_spec(insts[i]).L, field)]
+                    for i in range(n)]) if cls != "CustomSource" else np.zeros((n, 1))
+    sc = np.maximum(np.maximum(mag, fs * 1e-6), 1e-3 * nat) * np.ones((1, 3))
 
     def noise():
         nz = np.zeros((n, 3))
@@ -221,7 +226,15 @@ def run_case(case, ctx):
                     d[ax] = sg * m_
                     r = build.call(fn, objs[i], obs[i] + d, squeeze=False)
                     if r.ok:
-                        nz[i] = np.maximum(nz[i], np.abs(np.asarray(r.value).reshape(3) - ref[i]))
+                        nz[i] = np.maximum(nz[i], core.probe_diff(np.asarray(r.value).reshape(3), ref[i]))
+            # the library's own accuracy band at that observer (C01 envelope; inf where C01 asserts nothing)
+            from vf.props import c01  # pylint: disable=import-outside-toplevel
+
+            if cls in c01.tolerances():
+                bnd = float(c01.accuracy_band(cls, geom.body_from_spec(insts[i]), build.to_local(insts[i], obs[i])[None])[0])
+                if bnd > 1e-5:
+                    ctx.label("observer_in_wide_accuracy_band")
+                    nz[i] = np.maximum(nz[i], (3.0 * bnd / 20.0) * float(mag[i, 0]))
         return nz
 
     nz_cache = []
@@ -349,7 +362,7 @@ def run_case(case, ctx):
                                         rr = build.call(fn, objs[l_], obs[k_] + d, squeeze=False)
                                         if rr.ok:
                                             with np.errstate(invalid="ignore"):
-                                                nzf[l_, k_] = np.fmax(nzf[l_, k_], np.abs(np.asarray(rr.value).reshape(3) - ref_full[l_, k_]))
+                                                nzf[l_, k_] = np.fmax(nzf[l_, k_], np.where(np.isnan(ref_full[l_, k_]), 0.0, core.probe_diff(np.asarray(rr.value).reshape(3), ref_full[l_, k_])))
                         nzf_cache.append(nzf)
                     nzf = nzf_cache[0]
                     nz_ = nzf if want.shape == nzf.shape else (nzf[:, 0] if want.shape == nzf[:, 0].shape else np.nansum(nzf, axis=0))
@@ -378,6 +391,19 @@ def run_case(case, ctx):
                 cmp_full("Collection(all).getX(sensors)", np.asarray(r.value)[0, 0, :, 0, :], np.sum(ref_full, axis=0))
             else:
                 out.append(Violation({"sub": "form_raised", "form": "Collection(all).getX(sensors)", "cls": cls, **exc_sig(r.exc)}, repr(r.exc)[:200]))
+            # the same forms with sumup=True: one leading entry holding the sum over the sources
+            tot = np.sum(ref_full, axis=0)  # (k, 3); nan where some pair was excluded
+            r = build.call(fn, objs, sens_all, squeeze=False, sumup=True)
+            if r.ok:
+                cmp_full("getX([srcs],[sensors],sumup)", np.asarray(r.value)[0, 0, :, 0, :] if np.asarray(r.value).shape[0] == 1 else np.asarray(r.value), tot)
+            else:
+                out.append(Violation({"sub": "form_raised", "form": "getX([srcs],[sensors],sumup)", "cls": cls, **exc_sig(r.exc)}, repr(r.exc)[:200]))
+            r = build.call(getattr(sens_all[0], "get" + field), *objs, squeeze=False, sumup=True)
+            if r.ok:
+                v = np.asarray(r.value)
+                cmp_full("sens.getX(*srcs,sumup)", v[0, 0, 0, 0, :] if v.shape[0] == 1 else v, tot[0])
+            else:
+                out.append(Violation({"sub": "form_raised", "form": "sens.getX(*srcs,sumup)", "cls": cls, **exc_sig(r.exc)}, repr(r.exc)[:200]))
             ctx.label("multi_source_forms_compared")
 
     if cls not in FUNC:
